@@ -13,7 +13,7 @@ import (
 )
 
 func init() {
-	register("C10", "Structural clauses that keep the pruning shortcuts of the filtered walk unobservable, decided on all paths of filterFS.Walk's callback: every pattern-based SkipDir exit is unreachable unless the entry is a directory, the matching prefix-only flag is set and the matcher's verdict is the pruning one; every path-containment prefix test is separator-terminated; match infos of the include and exclude matcher are never crossed; the user callback is unreachable for an entry a matcher rejected, is preceded by the map function on the same stat when one is set, and is unreachable in the iteration where the map function said exclude/skip; lazily emitted ancestors are marked before they are reported and not reported twice. The wildcard test that allows text-level pruning looks for '*', '?' and '['. Nothing - no pending ancestor either - is reported before the map function was asked about the entry that causes the reports. Does not decide equivalence with the reference filter for all pattern lists, the flag computation, or patternmatcher itself.", runC10)
+	register("C10", "Structural clauses that keep the pruning shortcuts of the filtered walk unobservable, decided on all paths of filterFS.Walk's callback: every pattern-based SkipDir exit is unreachable unless the entry is a directory, the matching prefix-only flag is set and the matcher's verdict is the pruning one; every path-containment prefix test is separator-terminated; match infos of the include and exclude matcher are never crossed; the user callback is unreachable for an entry a matcher rejected, is preceded by the map function on the same stat when one is set, and is unreachable in the iteration where the map function said exclude/skip; lazily emitted ancestors are marked before they are reported and not reported twice. The wildcard test that allows text-level pruning looks for '*', '?' and '['. Nothing - no pending ancestor either - is reported before the map function was asked about the entry that causes the reports. The literal-prefix scan that keeps an unselected directory open looks only at positive patterns in the include block and only at exceptions ('!') in the exclude block. Does not decide equivalence with the reference filter for all pattern lists, the flag computation, or patternmatcher itself.", runC10)
 }
 
 func runC10(c *Ctx) {
@@ -29,6 +29,96 @@ func runC10(c *Ctx) {
 	r04_8(c, "R10.6")
 	r10_11(c, "R10.11")
 	r10_12(c, "R10.12")
+	r10_13(c, "R10.13")
+}
+
+// R10.13: which patterns keep an unselected directory open.
+//
+// A directory the include list does not select is still walked when a positive
+// include pattern lies below it; a directory the exclude list hides is still
+// walked when an exception ('!') lies below it. The scan that decides this
+// passes over the patterns of the other polarity: looking at the wrong ones
+// prunes a directory whose contents a pattern brings back.
+func r10_13(c *Ctx, rule string) {
+	c.R.Rule(rule, "filterFS.Walk: the literal-prefix scan that keeps a directory open looks only at non-exclusion patterns in the include block and only at exclusion ('!') patterns in the exclude block (the prefix test is unreachable for a pattern of the other polarity, reachable for the right one)")
+	fw := getFilterWalk(c, rule)
+	if fw == nil {
+		return
+	}
+	lit := fw.lit
+	x := c.explorer(lit)
+	// (the scan may live in a helper shared by both blocks, with the polarity
+	// as a parameter: every Exclusion() result is pinned, and the two blocks
+	// are told apart by where the path starts - at the include matcher's
+	// verdict up to the exclude matcher's, or from the exclude matcher's on)
+	var excl []*ssa.Call
+	for _, call := range c.P.CallsTo(lit, "(*github.com/moby/patternmatcher.Pattern).Exclusion") {
+		if cl, ok := call.(*ssa.Call); ok {
+			excl = append(excl, cl)
+		}
+	}
+	sites := map[ssa.Instruction]bool{}
+	for _, pt := range c.prefixTests(lit) {
+		if c.DerivesFrom(pt.subject, func(v ssa.Value) bool {
+			return strings.HasSuffix(types.TypeString(v.Type(), nil), "patternmatcher.Pattern")
+		}, 8) {
+			sites[pt.site] = true
+		}
+	}
+	if len(sites) == 0 {
+		c.R.OK(rule, c.name(lit)+"/scan-polarity", c.P.Pos(lit.Pos()), "no prefix test on a pattern's text in the walk callback (the scan has a shape this rule does not interpret): not decided")
+		return
+	}
+	run := func(from ssa.Instruction, barrier ssa.Instruction, pol bool) (*eng.Hit, bool) {
+		y := c.explorer(lit)
+		y.From = from
+		as := map[string]bool{}
+		for _, ec := range excl {
+			as[x.RegKey(ec)] = pol
+		}
+		y.Assume = as
+		if barrier != nil {
+			y.Barrier = func(in ssa.Instruction, st *eng.State) bool { return in == barrier }
+		}
+		y.Target = func(in ssa.Instruction, st *eng.State) bool { return sites[in] }
+		y.StopAtTarget = true
+		hits := y.Run()
+		if y.Exhausted {
+			return nil, true
+		}
+		if len(hits) > 0 {
+			return &hits[0], false
+		}
+		return nil, false
+	}
+	for _, e := range []struct {
+		block   string
+		from    ssa.Instruction
+		barrier ssa.Instruction
+		want    bool
+		other   string
+	}{
+		{"include", fw.incCall, fw.excCall, false, "exclusion ('!') patterns"},
+		{"exclude", fw.excCall, nil, true, "positive patterns"},
+	} {
+		con := c.name(lit) + "/" + e.block + "-block/scan-polarity"
+		hitR, undR := run(e.from, e.barrier, e.want)
+		if undR {
+			c.R.Undecided(rule, con, c.P.Pos(lit.Pos()), "state limit")
+			continue
+		}
+		hitW, undW := run(e.from, e.barrier, !e.want)
+		switch {
+		case undW:
+			c.R.Undecided(rule, con, c.P.Pos(lit.Pos()), "state limit")
+		case hitR == nil && hitW == nil:
+			c.R.OK(rule, con, c.P.Pos(lit.Pos()), "no prefix test on a pattern's text after the "+e.block+" matcher's verdict (a shape this rule does not interpret): not decided")
+		case hitW != nil:
+			c.R.Fail(rule, con, c.pos(hitW.Instr), "the prefix test of the "+e.block+" block's scan is reachable for one of the "+e.other+": a pattern that cannot bring anything back keeps the directory open - or stands in for the ones that can, and a directory is pruned although a pattern re-includes something below it; path "+eng.BlockTrace(lit, hitW.Trace))
+		default:
+			c.R.OK(rule, con, c.pos(hitR.Instr), "the scan of the "+e.block+" block compares the directory only with patterns of the polarity that can bring entries back")
+		}
+	}
 }
 
 // R10.12: the walk entry points apply the filter they are given.
